@@ -737,7 +737,7 @@ fn g_entries(out: &mut Out, rng: &mut Rng, count: usize) -> io::Result<()> {
         }
     }
     // many minimal header lines (3-byte `x:\n`, 4-byte `x:\r\n` / `x:y\n`) at exactly-fitting capacities
-    for k in (0..48usize).step_by(3).chain([15usize, 16, 19, 20, 31, 32, 33].iter().cloned()) {
+    for k in (0..48usize).step_by(3).chain([15usize, 16, 19, 20, 31, 32, 33, 127, 128, 255, 256, 257, 300].iter().cloned()) {
         for line in [&b"x:\n"[..], b"x:\r\n", b"x:y\n", b"ab: c\r\n"] {
             for (kind, start) in [("reqall", &b"GET / HTTP/1.1\n"[..]), ("respall", &b"HTTP/1.1 200\n"[..]), ("respall", &b"HTTP/1.1 200 OK\r\n"[..])] {
                 let mut s = start.to_vec();
